@@ -5,6 +5,7 @@ package p13
 import (
 	"context"
 	"encoding/json"
+	"flag"
 	"fmt"
 	"io"
 	"reflect"
@@ -26,7 +27,11 @@ import (
 )
 
 func TestMain(m *testing.M) {
-	klog.LogToStderr(false)
+	fs := flag.NewFlagSet("klog", flag.ContinueOnError)
+	klog.InitFlags(fs)
+	_ = fs.Set("logtostderr", "false")
+	_ = fs.Set("alsologtostderr", "false")
+	_ = fs.Set("stderrthreshold", "FATAL")
 	klog.SetOutput(io.Discard)
 	vlib.Main(m)
 }
@@ -269,6 +274,11 @@ func checkMatchStep(pre, post []gw.HTTPRouteRule, matches []v1beta1.HttpRouteMat
 		ub.addMatch(strategyMatchAsRouteMatch(m))
 	}
 	u := ub.build()
+	sm := newStrategyModel(u, matches)
+	cOrigins := make([][]cmatch, len(stableRules))
+	for k := range stableRules {
+		cOrigins[k] = u.compileAll(stableRules[k].Matches)
+	}
 	for _, j := range rest {
 		g := post[j]
 		if !canaryOnly(g) {
@@ -278,15 +288,15 @@ func checkMatchStep(pre, post []gw.HTTPRouteRule, matches []v1beta1.HttpRouteMat
 			}
 			return vio(sig, "match step: rule %d after the step is neither a kept rule nor a canary-only rule: %s\nbefore=%s\nafter=%s", j, js(g), js(pre), js(post))
 		}
+		cg := u.compileAll(g.Matches)
 		ok := false
 		var cex request
 		if len(stableRules) == 0 {
-			ok, cex = narrow(u, g, matches, nil)
+			ok, cex = sm.narrow(cg, nil)
 		}
 		for k := range stableRules {
-			var good bool
-			var c request
-			if good, c = narrow(u, g, matches, &stableRules[k]); good {
+			good, c := sm.narrow(cg, cOrigins[k])
+			if good {
 				ok = true
 				break
 			}
@@ -366,10 +376,14 @@ func runC13(t vlib.TB, c Case) {
 		if r.panic_ != "" {
 			vlib.Fail(t, chkC13, "ensure-panic", c, "step %d: EnsureRoutes panicked: %s", si, r.panic_)
 		}
-		if r.err != nil || !r.done {
+		if r.err != nil {
 			// C13 makes no claim about a step the provider cannot apply (see c07-fixedpoint-gateway)
 			vlib.Class(chkC13, "step-not-applied")
 			return
+		}
+		if !r.done {
+			// never reporting done is c07-fixedpoint-gateway's business; the route is still judged
+			vlib.Class(chkC13, "step-never-reported-done")
 		}
 		post := e.rules()
 		var v *violation
